@@ -343,19 +343,28 @@ fn template_has_var_spg(u: &Update) -> bool {
 }
 
 fn mentions_relative_iri(ds: &Dataset) -> bool {
-    ds.named.keys().any(|g| update::is_relative_iri(g)) || ds.quads().iter().any(|q| update::is_relative_iri(&q.0) || update::is_relative_iri(&q.1) || update::is_relative_iri(&q.2))
+    let rel = |t: &(String, String, String)| update::is_relative_iri(&t.0) || update::is_relative_iri(&t.1) || update::is_relative_iri(&t.2);
+    ds.named.keys().any(|g| update::is_relative_iri(g)) || ds.default.iter().any(rel) || ds.named.values().any(|g| g.iter().any(rel))
+}
+
+/// Per request, computed once: (a template has a variable in subject / predicate / graph
+/// position, the request text mentions a relative IRI).
+fn relative_screen(alpha: &[Req]) -> Vec<(bool, bool)> {
+    alpha
+        .iter()
+        .map(|r| {
+            let text = r.text();
+            (r.model().map_or(false, template_has_var_spg), update::RELATIVE_IRIS.iter().any(|k| text.contains(&format!("<{}>", k))))
+        })
+        .collect()
 }
 
 /// Structural facts about one transition (pre-state + request, reference side only): the relative
 /// IRIs its templates put, through a VARIABLE, into subject / predicate / graph position.
 /// None = no such binding.
-fn relative_facts(pre: &Dataset, req: &Req) -> Option<update::RelReport> {
+fn relative_facts(pre: &Dataset, req: &Req, screen: (bool, bool)) -> Option<update::RelReport> {
     let u = req.model()?;
-    if !template_has_var_spg(u) {
-        return None;
-    }
-    let text = req.text();
-    if !mentions_relative_iri(pre) && !update::RELATIVE_IRIS.iter().any(|k| text.contains(&format!("<{}>", k))) {
+    if !screen.0 || !(screen.1 || mentions_relative_iri(pre)) {
         return None;
     }
     update::relative_iri_bindings(pre, u).filter(|r| !r.bindings.is_empty())
@@ -365,8 +374,8 @@ fn relative_facts(pre: &Dataset, req: &Req) -> Option<update::RelReport> {
 /// search (passing or failing): does an INSERT template put a relative IRI into subject /
 /// predicate / graph position through a variable; is the IRI there in the pre-state; does the same
 /// operation delete its last occurrence there.
-fn note_relative(out: &mut ShardOut, pre: &Dataset, req: &Req) {
-    let Some(rep) = relative_facts(pre, req) else { return };
+fn note_relative(out: &mut ShardOut, pre: &Dataset, req: &Req, screen: (bool, bool)) {
+    let Some(rep) = relative_facts(pre, req, screen) else { return };
     if rep.bindings.iter().any(|b| b.insert) {
         out.count("rel_transitions_insert_template_binds_relative_iri", 1);
     }
@@ -399,7 +408,8 @@ fn note_relative(out: &mut ShardOut, pre: &Dataset, req: &Req) {
 /// last one relates these facts to the observed dataset).
 fn relative_tags(pre: &Dataset, req: &Req, step: usize, real_after: Option<&Dataset>) -> Vec<String> {
     let mut tags = Vec::new();
-    let Some(rep) = relative_facts(pre, req) else { return tags };
+    let screen = relative_screen(std::slice::from_ref(req))[0];
+    let Some(rep) = relative_facts(pre, req, screen) else { return tags };
     let ins: Vec<&update::RelBinding> = rep.bindings.iter().filter(|b| b.insert).collect();
     if ins.is_empty() {
         tags.push("only_delete_template_binds_relative_iri".into());
@@ -523,6 +533,7 @@ fn run(ctx: &Ctx) -> ShardOut {
         out.machinery_errors.push(format!("term universe: {}", e));
         return out;
     }
+    let screen = relative_screen(&alpha);
     out.count("max_alphabet_size", alpha.len() as u64);
     out.count("max_core_alphabet_size", ugen::CORE_LEN as u64);
     // an extension symbol as the LAST step of an otherwise core-only path may come later
@@ -554,14 +565,14 @@ fn run(ctx: &Ctx) -> ShardOut {
             match run_path_entry(&alpha, &inits[init], &path0, Entry::ExecuteUpdate) {
                 Ok(o) => {
                     note_extension(&mut out, &alpha, &path0, &o);
-                    note_relative(&mut out, &o.pre_model, &alpha[first]);
+                    note_relative(&mut out, &o.pre_model, &alpha[first], screen[first]);
                     seen.insert(hash64(&(canon(&o.real), canon(&o.model))), !is_ext(first));
                     note_state(&mut out, &o.real, &alpha, init, &path0);
                     alt_entries(&mut out, &alpha, &inits, init, &path0);
                     frontier.push_back(path0);
                 }
                 Err(f) => {
-                    note_relative(&mut out, &inits[init], &alpha[first]);
+                    note_relative(&mut out, &inits[init], &alpha[first], screen[first]);
                     record_fail(&mut out, &alpha, &inits, init, &path0, Entry::ExecuteUpdate, f);
                     continue;
                 }
@@ -584,7 +595,7 @@ fn run(ctx: &Ctx) -> ShardOut {
                         Ok(o) => {
                             out.count(if o.accepted { "accepted_steps" } else { "refused_steps" }, 1);
                             note_extension(&mut out, &alpha, &p2, &o);
-                            note_relative(&mut out, &o.pre_model, &alpha[oi]);
+                            note_relative(&mut out, &o.pre_model, &alpha[oi], screen[oi]);
                             let core_only = !p2.iter().any(|x| is_ext(*x));
                             let key = hash64(&(canon(&o.real), canon(&o.model)));
                             let fresh = match seen.get(&key) {
@@ -613,7 +624,7 @@ fn run(ctx: &Ctx) -> ShardOut {
                             }
                         }
                         Err(f) => {
-                            note_relative(&mut out, &model_prestate(&alpha, &inits[init], &p2), &alpha[oi]);
+                            note_relative(&mut out, &model_prestate(&alpha, &inits[init], &p2), &alpha[oi], screen[oi]);
                             record_fail(&mut out, &alpha, &inits, init, &p2, Entry::ExecuteUpdate, f)
                         }
                     }
@@ -801,7 +812,7 @@ fn note_state(out: &mut ShardOut, real: &Dataset, alpha: &[Req], init: usize, pa
     if real.quads().iter().any(|q| q.0.starts_with("_:") || q.2.starts_with("_:")) {
         out.count("states_with_blank_nodes", 1);
     }
-    if real.quads().iter().any(|q| q.1 != P && q.1 != Q) {
+    if real.quads().iter().any(|q| q.1 != P && q.1 != Q && !update::is_relative_iri(&q.1)) {
         out.count("states_with_template_made_predicate", 1);
     }
     if real.named.keys().any(|g| g != G1 && g != G2 && !update::is_relative_iri(g)) {
